@@ -23,6 +23,7 @@ import (
 	"go/parser"
 	"go/token"
 	"io"
+	"net"
 	"os"
 	"path/filepath"
 	"sync"
@@ -41,7 +42,38 @@ var (
 
 const spinLimit = 64 // Reads tolerated after the stream has already reported its end
 
+// failure kinds of an endpoint's read side (spec field `end` / `uend`); every one of them is STICKY: once reported,
+// every further Read reports it again
+type netErr struct {
+	to, tmp bool
+}
+
+func (e *netErr) Error() string   { return fmt.Sprintf("verif: net.Error timeout=%v temporary=%v", e.to, e.tmp) }
+func (e *netErr) Timeout() bool   { return e.to }
+func (e *netErr) Temporary() bool { return e.tmp }
+
+var kindErrs = []error{io.EOF, errRead, io.ErrUnexpectedEOF, net.ErrClosed, os.ErrDeadlineExceeded,
+	&netErr{false, false}, &netErr{false, true}, &netErr{true, false}, &netErr{true, true}, io.ErrClosedPipe}
+var kindNames = []string{"io.EOF", "plain error", "io.ErrUnexpectedEOF", "net.ErrClosed", "os.ErrDeadlineExceeded",
+	"net.Error{timeout=false,temporary=false}", "net.Error{timeout=false,temporary=true}",
+	"net.Error{timeout=true,temporary=false}", "net.Error{timeout=true,temporary=true}", "io.ErrClosedPipe"}
+
+func endErrOf(kind int) error {
+	if kind < 0 || kind >= len(kindErrs) {
+		panic("bad end kind")
+	}
+	return kindErrs[kind]
+}
+
+// the scripted read-end kinds of the case being run: a Result error identical to one of them is "the read error"
+var caseKinds []int
+
 func errClass(e error) int {
+	for _, k := range caseKinds {
+		if k >= 1 && e == kindErrs[k] {
+			return 1
+		}
+	}
 	switch {
 	case e == nil:
 		return 0
@@ -95,6 +127,8 @@ type streamSpec struct {
 	Gate   int    `json:"gate"`   // -1 none; else: bytes from this offset on are released only after this endpoint was half-closed
 	//                               (or, when its wrapping makes the half-close invisible, after the peer reported its end)
 	Wrap int `json:"wrap"` // how the endpoint is handed to the relay, see wrapEndpoint
+	Lax  bool `json:"lax"` // false: the endpoint ENFORCES its half-close (a Write after CloseWrite fails with io.ErrClosedPipe)
+	Empties []bool `json:"empties"` // Empties[i]: the i-th Read call returns (0, nil) — allowed by io.Reader — and consumes nothing
 }
 
 type streamFake struct {
@@ -121,6 +155,10 @@ type streamFake struct {
 	wkind       int
 	ioAfterClos int
 
+	lax          bool
+	empties      []bool
+	readIdx      int
+	writeAfterCW int
 	hcInvisible bool   // the wrapping turns tryCloseWrite into a no-op: the gate opens on the peer's end instead
 	peerEnded   *int32 // set (atomically) by the peer endpoint when it has reported its end to the relay
 	selfEnded   int32
@@ -147,23 +185,28 @@ func (f *streamFake) markEnded() {
 
 func newStreamFake(name string, s streamSpec, log *evlog, spin chan string) *streamFake {
 	f := &streamFake{name: name, log: log, spin: spin, data: unhx(s.Data), cuts: append([]int(nil), s.Cuts...),
-		end: s.End, wd: s.WD, gate: s.Gate, wlimit: s.WLimit, wkind: s.WKind}
+		end: s.End, wd: s.WD, gate: s.Gate, wlimit: s.WLimit, wkind: s.WKind, lax: s.Lax, empties: s.Empties}
 	f.cond = sync.NewCond(&f.mu)
 	return f
 }
 
-func (f *streamFake) endErr() error {
-	if f.end == 0 {
-		return io.EOF
-	}
-	return errRead
-}
+func (f *streamFake) endErr() error { return endErrOf(f.end) }
 
 func (f *streamFake) Read(p []byte) (int, error) {
 	f.mu.Lock()
 	defer f.mu.Unlock()
 	if len(p) == 0 {
 		return 0, nil
+	}
+	if f.closed {
+		f.ioAfterClos++
+		return 0, errClosed
+	}
+	if f.readIdx < len(f.empties) {
+		f.readIdx++
+		if f.empties[f.readIdx-1] {
+			return 0, nil // an empty read: no data, no error
+		}
 	}
 	for {
 		if f.closed {
@@ -233,6 +276,10 @@ func (f *streamFake) Write(p []byte) (int, error) {
 	if f.closed {
 		f.ioAfterClos++
 		return 0, errClosed
+	}
+	if !f.lax && f.cw > 0 {
+		f.writeAfterCW++
+		return 0, io.ErrClosedPipe // the write side has been shut down
 	}
 	f.writes++
 	if f.wlimit >= 0 && len(f.written)+len(p) > f.wlimit {
@@ -363,8 +410,10 @@ type dgramFake struct {
 	closes   int
 	ioAfterC int
 
-	selfEnded int32
-	onEnd     func()
+	selfEnded  int32
+	onEnd      func()
+	readsAfter int
+	spin       chan string
 }
 
 func (f *dgramFake) Read(p []byte) (int, error) {
@@ -376,14 +425,20 @@ func (f *dgramFake) Read(p []byte) (int, error) {
 	}
 	if len(f.in) == 0 {
 		e := f.end
+		f.readsAfter++
+		ra := f.readsAfter
 		f.mu.Unlock()
+		if ra > spinLimit+1 && f.spin != nil {
+			select {
+			case f.spin <- "udp":
+			default:
+			}
+			select {} // park the spinning goroutine for ever
+		}
 		if atomic.SwapInt32(&f.selfEnded, 1) == 0 && f.onEnd != nil {
 			go f.onEnd()
 		}
-		if e == 0 {
-			return 0, io.EOF
-		}
-		return 0, errRead
+		return 0, endErrOf(e)
 	}
 	d := f.in[0]
 	f.in = f.in[1:]
@@ -455,6 +510,8 @@ type udpObs struct {
 	Events    []string `json:"events"`
 	IOAfterCl int      `json:"io_after_close"`
 	ReadsAfterEnd int  `json:"reads_after_end"`
+	WriteAfterCW  int  `json:"write_after_half_close"`
+	TunnelWriteFault bool `json:"tunnel_write_fault,omitempty"`
 }
 
 const watchdog = 20 * time.Second // fallback only; a spin is detected by the fake without a clock
@@ -464,7 +521,7 @@ var fatalHang = false // set when the wall-clock watchdog fired: results are flu
 func runUDP(dgrams [][]byte, uend, pauseAt, uwfail int, tun streamSpec, big bool) (*udpObs, []byte, [][]byte) {
 	log := &evlog{}
 	spin := make(chan string, 2)
-	u := &dgramFake{log: log, in: dgrams, pauseAt: pauseAt, end: uend, wfail: uwfail}
+	u := &dgramFake{log: log, in: dgrams, pauseAt: pauseAt, end: uend, wfail: uwfail, spin: spin}
 	t := newStreamFake("tunnel", tun, log, spin)
 	t.hcInvisible, t.peerEnded, u.onEnd = wrapInvisible(tun.Wrap), &u.selfEnded, t.wake
 	tconn := wrapEndpoint(t, tun.Wrap)
@@ -494,6 +551,8 @@ func runUDP(dgrams [][]byte, uend, pauseAt, uwfail int, tun streamSpec, big bool
 	o.NWrites = t.writes
 	o.IOAfterCl = t.ioAfterClos + u.ioAfterC
 	o.ReadsAfterEnd = t.readsAfter
+	o.WriteAfterCW = t.writeAfterCW
+	o.TunnelWriteFault = tun.WLimit >= 0
 	u.mu.Unlock()
 	t.mu.Unlock()
 	if res != nil {
@@ -612,6 +671,9 @@ func checkUDPCommon(out *caseOut, tag string, o *udpObs, wrap int) {
 			}
 		}
 	}
+	if o.WriteAfterCW != 0 && !o.TunnelWriteFault {
+		out.fail("udp-write-after-half-close", "%s: %d tunnel Writes came after iocopy.UDP had half-closed the tunnel (they fail on a tunnel that honours CloseWrite)", tag, o.WriteAfterCW)
+	}
 	if o.IOAfterCl != 0 {
 		out.fail("udp-io-after-close", "%s: %d Read/Write calls hit an endpoint that iocopy.UDP had already closed", tag, o.IOAfterCl)
 	}
@@ -722,6 +784,7 @@ type tcpObs struct {
 	Events   []string `json:"events"`
 	IOAfterC int      `json:"io_after_close"`
 	OnDone   int      `json:"on_complete_calls"`
+	WriteAfterCW int  `json:"write_after_half_close"`
 }
 
 func isPrefix(p, s []byte) bool { return len(p) <= len(s) && string(s[:len(p)]) == string(p) }
@@ -756,6 +819,7 @@ func runTCPCase(c *caseIn, out *caseOut) {
 	toB := append([]byte(nil), b.written...)
 	toA := append([]byte(nil), a.written...)
 	o.IOAfterC = a.ioAfterClos + b.ioAfterClos
+	o.WriteAfterCW = a.writeAfterCW + b.writeAfterCW
 	a.mu.Unlock()
 	b.mu.Unlock()
 	o.NToA, o.NToB = len(toA), len(toB)
@@ -807,6 +871,9 @@ func runTCPCase(c *caseIn, out *caseOut) {
 	if firstClose >= 0 && firstClose < lastHalf {
 		out.fail("tcp-early-close", "an endpoint was fully closed before both directions had finished (events %v)", o.Events)
 	}
+	if o.WriteAfterCW != 0 {
+		out.fail("tcp-write-after-half-close", "%d Writes hit an endpoint whose write side Bidirectional had already shut down", o.WriteAfterCW)
+	}
 	if o.IOAfterC != 0 {
 		out.fail("tcp-io-after-close", "%d Read/Write calls hit an endpoint Bidirectional had already closed", o.IOAfterC)
 	}
@@ -834,6 +901,7 @@ func runCase(raw json.RawMessage) interface{} {
 	c.Tunnel.WLimit, c.Tunnel.Gate = -1, -1
 	c.A.WLimit, c.A.Gate, c.B.WLimit, c.B.Gate = -1, -1, -1, -1
 	must(json.Unmarshal(raw, &c))
+	caseKinds = []int{c.Tunnel.End, c.A.End, c.B.End, c.UEnd}
 	out := &caseOut{PropOK: true}
 	switch c.Mode {
 	case "udp", "rt":
